@@ -145,25 +145,22 @@ static int upipe_ts_tstd_set_flow_def(struct upipe *upipe,
         return UBASE_ERR_INVALID;
 
     struct upipe_ts_tstd *upipe_ts_tstd = upipe_ts_tstd_from_upipe(upipe);
-    UBASE_RETURN(uref_block_flow_get_octetrate(flow_def,
-                                               &upipe_ts_tstd->octetrate))
-    uint64_t bs;
+    /* a refused flow definition must leave the previous one in force:
+     * nothing is stored before the last step that can fail */
+    uint64_t octetrate, bs;
+    UBASE_RETURN(uref_block_flow_get_octetrate(flow_def, &octetrate))
     UBASE_RETURN(uref_block_flow_get_buffer_size(flow_def, &bs))
 
-    if (bs * UCLOCK_FREQ / upipe_ts_tstd->octetrate >
-            upipe_ts_tstd->max_delay) {
-        bs = upipe_ts_tstd->max_delay * upipe_ts_tstd->octetrate / UCLOCK_FREQ;
+    if (bs * UCLOCK_FREQ / octetrate > upipe_ts_tstd->max_delay) {
+        bs = upipe_ts_tstd->max_delay * octetrate / UCLOCK_FREQ;
         upipe_warn_va(upipe,
                 "exceeding max retention delay, adjusting buffer to %"PRIu64,
                 bs);
     }
-    upipe_ts_tstd->fullness += bs - upipe_ts_tstd->bs;
-    upipe_ts_tstd->bs = bs;
-    upipe_ts_tstd->remainder = 0;
 
     uint64_t latency = 0;
     uref_clock_get_latency(flow_def, &latency);
-    latency += bs * UCLOCK_FREQ / upipe_ts_tstd->octetrate;
+    latency += bs * UCLOCK_FREQ / octetrate;
 
     struct uref *flow_def_dup;
     if ((flow_def_dup = uref_dup(flow_def)) == NULL)
@@ -175,6 +172,11 @@ static int upipe_ts_tstd_set_flow_def(struct upipe *upipe,
             return err;
         }
     }
+
+    upipe_ts_tstd->octetrate = octetrate;
+    upipe_ts_tstd->fullness += bs - upipe_ts_tstd->bs;
+    upipe_ts_tstd->bs = bs;
+    upipe_ts_tstd->remainder = 0;
     upipe_ts_tstd_store_flow_def(upipe, flow_def_dup);
     return UBASE_ERR_NONE;
 }
